@@ -1,9 +1,10 @@
 /- Line-protocol driver for C07: result annotations over response shapes, pydantic validation / dump
-   with call logs, scalar imports.  (The whole `send` pipeline with its call log is an op of the
+   with call logs, scalar imports, the scalar imports of the input-types module.  (The whole `send` pipeline with its call log is an op of the
    C03 driver; harness/c07.py uses both.) -/
 import AriadneModel.Driver.ArgWire
 import AriadneModel.Model.ResultAnn
 import AriadneModel.Model.ArgFindings
+import AriadneModel.Model.InputImports
 
 open Lean (Json)
 open Ariadne Ariadne.Wire Ariadne.ArgWire Ariadne.Scalars Ariadne.ResultAnn Ariadne.PydLog Ariadne.ArgValues
@@ -76,6 +77,18 @@ def handle (j : Json) : Except String Json := do
     pure (Json.mkObj [("imports", .arr ((scalarImports d).map fun i => Json.mkObj [("module", i.module), ("names", strs i.names)]).toArray),
       ("typeName", d.typeName), ("parseName", optS d.parseName), ("serializeName", optS d.serializeName),
       ("namesToImport", strs d.namesToImport), ("trigImportKeyDotted", trigImportKeyDotted d)])
+  | "inputsModule" =>
+    -- InputTypesGenerator(schema, custom_scalars).generate(types_to_include = roots | None)
+    let schema ← decISchema (← field j "schema")
+    let cfg ← decScalars j "scalars"
+    let roots : Option (List String) ← match j.getObjVal? "roots" with
+      | .ok (.arr xs) => do pure (some (← xs.toList.mapM fun x => x.getStr?))
+      | _ => pure none
+    match InputImports.generate schema cfg roots with
+    | .ok m => pure (Json.mkObj [("ok", Json.mkObj [("classes", strs m.classes), ("usedScalars", strs m.usedScalars),
+        ("imports", .arr (m.scalarImports.map fun i => Json.mkObj [("module", i.module), ("names", strs i.names)]).toArray)])])
+    | .error (.keyError sc) => pure (Json.mkObj [("error", "KeyError"), ("scalar", sc)])
+    | .error .recursion => pure (Json.mkObj [("error", "RecursionError")])
   | _ => throw s!"unknown op {op}"
 
 def main : IO Unit := Ariadne.Wire.loop handle
